@@ -234,6 +234,12 @@ func nestSets() []*Set {
 // ---------------------------------------------------------------------------
 // cross-package graphs, M mappings, paths=source_relative
 
+func xpkgEnumOnly() *fileB {
+	e := newFile("xa", "e", "vf.xpkg.a")
+	e.enum(enum("Shade", "SHADE_UNSPECIFIED", 0, "SHADE_DARK", 1, "SHADE_LIGHT", 2))
+	return e
+}
+
 func xpkgFiles() (a1, a2, b, c *fileB) {
 	a1 = newFile("xa", "a1", "vf.xpkg.a")
 	a1.enum(enum("Color", "COLOR_UNSPECIFIED", 0, "COLOR_RED", 1, "COLOR_BLUE", 5))
@@ -253,8 +259,10 @@ func xpkgFiles() (a1, a2, b, c *fileB) {
 	a2m.add(field("inner", 2, kindSpec{t: tMessage, name: ".vf.xpkg.a.Base.Inner"}))
 	a2m.add(repeated(field("colors", 3, kindSpec{t: tEnum, name: ".vf.xpkg.a.Color"})))
 	a2.msg(a2m)
-	b = newFile("xb", "b", "vf.xpkg.b").dep(*a1.f.Name, *a2.f.Name)
+	b = newFile("xb", "b", "vf.xpkg.b").dep(*a1.f.Name, *a2.f.Name, *xpkgEnumOnly().f.Name)
 	bm := newMsg(".vf.xpkg.b", "UsesA")
+	bm.add(field("shade", 7, kindSpec{t: tEnum, name: ".vf.xpkg.a.Shade"}))
+	bm.add(repeated(field("shades", 8, kindSpec{t: tEnum, name: ".vf.xpkg.a.Shade"})))
 	bm.add(field("base", 1, kindSpec{t: tMessage, name: ".vf.xpkg.a.Base"}))
 	bm.add(repeated(field("seconds", 2, kindSpec{t: tMessage, name: ".vf.xpkg.a.Second"})))
 	bm.addMap("by_color", 3, tInt32, kindSpec{t: tEnum, name: ".vf.xpkg.a.Color"})
@@ -274,7 +282,7 @@ func xpkgFiles() (a1, a2, b, c *fileB) {
 
 func xpkgSets() []*Set {
 	a1, a2, b, c := xpkgFiles()
-	all := simpleSet("xpkg-all", a1, a2, b, c)
+	all := simpleSet("xpkg-all", a1, a2, xpkgEnumOnly(), b, c)
 	// M mapping + source_relative: a file without go_package
 	mf := &fileB{f: &descriptorpb.FileDescriptorProto{
 		Name: proto.String("zzgen/xm/m.proto"), Package: proto.String("vf.xpkg.m"), Syntax: proto.String("proto3"),
